@@ -30,6 +30,9 @@ type Key struct {
 	Alg  jose.SignatureAlgorithm
 	Priv crypto.Signer // *rsa.PrivateKey, *ecdsa.PrivateKey, ed25519.PrivateKey
 	Use  string        // "sig", "enc" or ""
+	// RawUse makes OPPublicKey.Use() report Use literally (so that a published key without a declared
+	// use can be modelled); the zero value keeps the historical mapping "" -> "sig".
+	RawUse bool
 }
 
 func (k *Key) Public() crypto.PublicKey { return k.Priv.Public() }
@@ -51,6 +54,9 @@ type OPPublicKey struct{ K *Key }
 func (p OPPublicKey) ID() string                         { return p.K.Kid }
 func (p OPPublicKey) Algorithm() jose.SignatureAlgorithm { return p.K.Alg }
 func (p OPPublicKey) Use() string {
+	if p.K.RawUse {
+		return p.K.Use
+	}
 	if p.K.Use == "" {
 		return "sig"
 	}
